@@ -88,3 +88,16 @@ CLAIMS["C08"] = {
     "note": "Trusted: numpy element-wise semantics; weights non-negative. The order-statistic draws themselves (which contest "
             "is 'lower'/'upper') are abstracted to arbitrary 0/1 values, which over-approximates them.",
 }
+
+CLAIMS["C07"] = {
+    "technique": "abstract interpretation over a finite region domain: the np.where / mask-assignment chains (def-use terms, helper "
+                 "inlined) are evaluated element-wise for every abstract state (7 regions around 0 and +-0.005 x call code x "
+                 "stop flag); validation by path conditions of the raises + CFG dominance; pass-through by call-argument terms",
+    "level": "Decides the complete decision table instead of the four rows the tests touch: for every sign pattern of prediction, "
+             "lower and upper bound, every call code and stop flag (exhaustive enumeration of the abstract states; comparisons are "
+             "exact on the domain) left call => pred >= +0.005 and, unless stop-listed, lower >= 0; right call symmetric; "
+             "stop-listed & uncalled => interval contains 0; otherwise unchanged; finer aggregates untouched. Contradictory or "
+             "unknown calls raise before any vector exists; the lists travel unchanged from the public API to both functions.",
+    "note": "Trusted: numpy element-wise semantics (where, maximum, minimum, isclose, boolean masks). The straddle step that makes "
+            "lower < pred < upper is C06's rule and is assumed here only to restrict the enumerated states (lower < upper).",
+}
